@@ -7,6 +7,7 @@
      HLLE shipped N d <nbrs> <V: N blocks of k*d>          -> OK <N*N> | OOB s i n | SOLVEFAIL i  (Gram-Schmidt column with u.u = 0)
      EIGC N cnt tol <nbrs> <kern N*N> <E: cnt blocks k*k> <lam: cnt blocks k>   -> OK b_0 .. b_{cnt-1}  (1 = contract holds;
           extracted eig_contract_b against the model's centred Gram of samples 0..cnt-1)
+     EIGM N tol <M N*N> <E N*N> <lam N>                     -> OK b   (extracted eig_contract_b on a GLOBAL solver call)
      LOCB N <nbrs> <kern N*N>                              -> OK <N blocks k*k>  the matrices the local eigensolver sees (model)
      EMB  N d tol centred opt <M N*N> <Y N*d>              -> V <0|1|2|3>
      MCHK N tol mu <M N*N>                                 -> V <0|1|2>   (1 not symmetric, 2 M 1 <> mu 1)
@@ -155,6 +156,13 @@ let () =
                  Buffer.add_string buf (if c08_eig_contract_b (nat_of_int k) tol b e lam then " 1" else " 0"))
                (List.combine es lams);
              print_endline (Buffer.contents buf)
+           | "EIGM" ->
+             let n = next_int () in
+             let tol = next_q () in
+             let m = c08_mof (next_mat n n) in
+             let e = c08_mof (next_mat n n) in
+             let lam = c08_vof (next_list n next_q) in
+             print_endline (if c08_eig_contract_b (nat_of_int n) tol m e lam then "OK 1" else "OK 0")
            | "LOCB" ->
              let n = next_int () in
              let nb = next_nbrs n in
